@@ -73,6 +73,11 @@ def install_nested(md, where):
             r.push("verif_nested", rule, opts) if opts else r.push("verif_nested", rule)
         else:
             getattr(r, kind)(ref, "verif_nested", rule, opts) if opts else getattr(r, kind)(ref, "verif_nested", rule)
+    elif where[0] == "highlight":
+        def hl(content, lang, attrs):
+            _reenter(md)
+            return ""
+        md.options["highlight"] = hl
     else:
         key = where[1]
         orig = md.renderer.rules.get(key)
@@ -147,16 +152,22 @@ def _gen_call(rng, small):
 
 
 def _gen_nested(rng, threads):
-    if rng.random() < 0.7:
+    r = rng.random()
+    if r < 0.65:
         which = rng.choice(RULERS)
         where = ["rule", which, rng.choice(["push", "before", "after", "before"]), rng.choice(REF_NAMES[which])]
-    else:
+    elif r < 0.92:
         where = ["render", rng.choice(RENDER_KEYS)]
+    else:
+        where = ["highlight"]
     t = rng.randrange(len(threads))
     c = rng.randrange(len(threads[t]))
-    if where[0] == "render" and threads[t][c][0] in ("parse", "parseInline"):
+    if where[0] in ("render", "highlight") and threads[t][c][0] in ("parse", "parseInline"):
         threads[t][c][0] = "render" if threads[t][c][0] == "parse" else "renderInline"
-    m = rng.choice(["render", "render", "parse", "renderInline"])
+    if where[0] == "highlight":
+        threads[t][c][0] = "render"
+        threads[t][c][1] = threads[t][c][1] + rng.choice(["\n```py x\ncode\n```\n", "\n> ~~~\n> q\n> ~~~\n"])
+    m = rng.choice(["render", "render", "parse", "renderInline", "parseInline"])
     d = docgen.inline_source(rng) if "Inline" in m else docgen.document(rng, 2)
     return {"where": where, "inv": {"frac": rng.random() ** rng.choice([1, 2, 3])}, "method": m, "doc": d,
             "thread": t, "call": c}
@@ -348,7 +359,9 @@ def execute(rec: dict, res: RunResult) -> None:
     if a is not None and a.fired:
         res.count("nested_reentries_fired")
         res.nontrivial = True
-        res.reach("nested_sites", "|".join(map(str, nested["where"])))
+        res.reach("nested_sites", "|".join(map(str, nested["where"])) + ">" + nested["method"])
+        if nested["where"][0] == "highlight":
+            res.count("nested_from_highlight")
 
     # ---- 3. oracle
     site = rec["start"][0]
